@@ -80,23 +80,30 @@ def h_read_dense_robust(ll, fcap, flen, budget, timeout_ms):
     t.findings = t.eng.run(t.st, '@k_read_dense', [rb, re_, n_[1], m_[1], v_[1], bvv(wcap, 32), vl_[1]], on_done, budget) + t.findings
     return t
 
-def h_crs_roundtrip(ll, n, nnz, budget, timeout_ms):
+def h_crs_roundtrip(ll, n, nnz, budget, timeout_ms, vbytes=4):
     """n rows (concrete), exactly nnz stored entries (concrete), row pointers / columns / values symbolic; rows sorted (the reader sorts rows)"""
     t = Task(ll, timeout_ms); st = t.st; t.inputs['n'] = n
     ptr = [bvv(0, 32)] + [z3.BitVec('ptr_%d' % (i + 1), 32) for i in range(n)]
     if n > 0: ptr[n] = bvv(nnz, 32)       # the total is concrete (it fixes the file length); the interior row pointers are symbolic
-    col = [z3.BitVec('col_%d' % j, 32) for j in range(nnz)]; val = [z3.BitVec('val_%d' % j, 32) for j in range(nnz)]
+    col = [z3.BitVec('col_%d' % j, 32) for j in range(nnz)]; val = [z3.BitVec('val_%d' % j, 8 * vbytes) for j in range(nnz)]
+    def wrv(o, k, v):
+        for b in range(vbytes): o.bytes[vbytes*k+b] = z3.simplify(z3.Extract(8*b+7, 8*b, v))
+    def rdv(o, k): return z3.simplify(z3.Concat(*[o.bytes[vbytes*k+b] for b in range(vbytes - 1, -1, -1)]))
+    sfx = '8' if vbytes == 8 else ''
     for i in range(n): st.pc += [ptr[i] <= ptr[i + 1]]; t.inputs['ptr[%d]' % (i + 1)] = ptr[i + 1] if not z3.is_bv_value(ptr[i + 1]) else ptr[i + 1].as_long()
     if n == 0 and nnz > 0: raise SystemExit("n = 0 needs nnz = 0")
-    for j in range(nnz): t.inputs['col[%d]' % j] = col[j]; t.inputs['val[%d]' % j] = val[j]
+    for j in range(nnz):
+        t.inputs['col[%d]' % j] = col[j]
+        if vbytes == 4: t.inputs['val[%d]' % j] = val[j]
+        else: t.inputs['val_lo[%d]' % j] = z3.Extract(31, 0, val[j]); t.inputs['val_hi[%d]' % j] = z3.Extract(63, 32, val[j])
     for i in range(n):
         for j in range(nnz - 1): st.pc.append(z3.Implies(z3.And(ptr[i] <= j, j + 1 < ptr[i + 1]), col[j] <= col[j + 1]))
-    po, pp = t.eng.new_obj(st, "in_ptr", 4 * (n + 1), 'heap'); co, cp = t.eng.new_obj(st, "in_col", max(4 * nnz, 4), 'heap'); vo, vp = t.eng.new_obj(st, "in_val", max(4 * nnz, 4), 'heap')
+    po, pp = t.eng.new_obj(st, "in_ptr", 4 * (n + 1), 'heap'); co, cp = t.eng.new_obj(st, "in_col", max(4 * nnz, 4), 'heap'); vo, vp = t.eng.new_obj(st, "in_val", max(vbytes * nnz, vbytes), 'heap')
     for i in range(n + 1): wr32(po, i, ptr[i])
-    for j in range(nnz): wr32(co, j, col[j]); wr32(vo, j, val[j])
+    for j in range(nnz): wr32(co, j, col[j]); wrv(vo, j, val[j])
     rb = z3.BitVec('row_beg', 32); re_ = z3.BitVec('row_end', 32); t.inputs['row_beg'] = rb; t.inputs['row_end'] = re_
     st.pc.append(z3.Or(z3.And(rb == -1, re_ == -1), z3.And(rb >= 0, rb <= re_, re_ <= n)))
-    n_, ptr_, col_, val_, pl_, cl_, vl_ = t.out('n', 4), t.out('ptr', 4*(n+2)), t.out('col', 4*(nnz+1)), t.out('val', 4*(nnz+1)), t.out('pl', 4), t.out('cl', 4), t.out('vl', 4); t.start()
+    n_, ptr_, col_, val_, pl_, cl_, vl_ = t.out('n', 4), t.out('ptr', 4*(n+2)), t.out('col', 4*(nnz+1)), t.out('val', vbytes*(nnz+1)), t.out('pl', 4), t.out('cl', 4), t.out('vl', 4); t.start()
     def after_write(s1):
         if s1.retval is None: t.findings.append(irsx.Violation("escaped-exception", "an exception left the writer wrapper", s1.model)); return
         t.post(s1, s1.retval == 0, lambda m: "writing a valid matrix failed")
@@ -107,10 +114,10 @@ def h_crs_roundtrip(ll, n, nnz, budget, timeout_ms):
             b = z3.If(rb < 0, bvv(0, 32), rb); e = z3.If(re_ < 0, bvv(n, 32), re_); pb = sel(ptr, b, n + 1); pe = sel(ptr, e, n + 1)
             conds = [r == 0, rn == n, pl == e - b + 1, cl == pe - pb, vl == cl]
             for i in range(n + 1): conds.append(z3.Implies(bvv(i, 32) < pl, rd32(O(ptr_), i) == sel(ptr, b + i, n + 1) - pb))
-            for j in range(nnz): conds.append(z3.Implies(bvv(j, 32) < cl, z3.And(rd32(O(col_), j) == sel(col, pb + j, nnz), rd32(O(val_), j) == sel(val, pb + j, nnz))))
+            for j in range(nnz): conds.append(z3.Implies(bvv(j, 32) < cl, z3.And(rd32(O(col_), j) == sel(col, pb + j, nnz), rdv(O(val_), j) == sel(val, pb + j, nnz))))
             t.post(s2, z3.And(*conds), lambda m: "write + read does not return the written matrix (slice): rc=%s n=%s ptr_len=%s col_len=%s" % (m.eval(r), m.eval(rn), m.eval(pl), m.eval(cl)))
-        t.findings += t.eng.run(s1, '@k_read_crs', [rb, re_, n_[1], ptr_[1], bvv(n + 2, 32), col_[1], val_[1], bvv(nnz + 1, 32), pl_[1], cl_[1], vl_[1]], after_read, budget)
-    t.findings = t.eng.run(st, '@k_write_crs', [bvv(n, 32), pp, cp, vp], after_write, budget) + t.findings
+        t.findings += t.eng.run(s1, '@k_read_crs' + sfx, [rb, re_, n_[1], ptr_[1], bvv(n + 2, 32), col_[1], val_[1], bvv(nnz + 1, 32), pl_[1], cl_[1], vl_[1]], after_read, budget)
+    t.findings = t.eng.run(st, '@k_write_crs' + sfx, [bvv(n, 32), pp, cp, vp], after_write, budget) + t.findings
     return t
 
 def h_dense_roundtrip(ll, n, m, budget, timeout_ms):
@@ -185,10 +192,107 @@ def diff(ll, iters, seed):
         for oid in [k for k, o in st_box[0].objs.items() if o.name.startswith('drv')]: del st_box[0].objs[oid]
     return lines
 
+# ------------------------------------------------------------------ MatrixMarket reader at token level (cwrap/k_mm.cpp + cwrap/stub_mm)
+VT_LINES, VT_TOKS = 8, 6
+def mm_setup(ll, nlines, timeout_ms, body=False):
+    """file = nlines lines (concrete count); line 0 = banner with symbolic words; one optional comment line; all numeric tokens symbolic.
+       body tasks: valid banner of an integer coordinate file, general or symmetric; otherwise every word is the expected one or an unknown one"""
+    t = Task(ll, timeout_ms); e = t.eng; st = t.st
+    def seti(name, idx, val, width):
+        o = gobj(e, st, name); nb = width // 8
+        for b in range(nb): o.bytes[idx * nb + b] = z3.simplify(z3.Extract(8 * b + 7, 8 * b, val))
+    seti('@vt_open_fails', 0, bvv(0, 32), 32); seti('@vt_nlines', 0, bvv(nlines, 32), 32); t.inputs['nlines'] = nlines
+    for L in range(VT_LINES):
+        c = z3.BitVec('comment_%d' % L, 32) if L == 1 else bvv(0, 32)      # only the line after the banner may be a comment (the reader skips comments only there)
+        if L == 1: st.pc.append(z3.Or(c == 0, c == 1)); t.inputs['comment[1]'] = c
+        seti('@vt_comment', L, c, 32)
+        nt = z3.BitVec('ntok_%d' % L, 32); st.pc += [nt >= 0, nt <= VT_TOKS]; seti('@vt_ntok', L, nt, 32); t.inputs['ntok[%d]' % L] = nt
+        for k in range(VT_TOKS):
+            v = z3.BitVec('tok_%d_%d' % (L, k), 64); seti('@vt_tok', L * VT_TOKS + k, v, 64); t.inputs['tok[%d][%d]' % (L, k)] = v
+            if L == 0 and k < 5:
+                w = z3.BitVec('word_%d' % k, 32); allowed = [(0,), (1,), (2,), (6,), (7, 8)][k] if body else [(0, 9), (1, 9), (2, 3, 9), (4, 5, 6, 9), (7, 8, 9)][k]; st.pc.append(z3.Or(*[w == a for a in allowed])); t.inputs['word[0][%d]' % k] = w
+            else: w = bvv(9, 32)
+            seti('@vt_word', L * VT_TOKS + k, w, 32)
+    return t
+
+def h_mm_sparse_robust(ll, nlines, budget, timeout_ms, body=False, rng=None):
+    t = mm_setup(ll, nlines, timeout_ms, body); st = t.st; cap = 2 * VT_LINES + 2
+    if rng is None: rb = z3.BitVec('row_beg', 64); re_ = z3.BitVec('row_end', 64); st.pc += [rb >= -1, re_ >= -1, rb <= 4, re_ <= 4]
+    else: rb = bvv(rng[0], 64); re_ = bvv(rng[1], 64)       # one task per requested row range
+    t.inputs['row_beg'] = rb if rng is None else rng[0]; t.inputs['row_end'] = re_ if rng is None else rng[1]
+    # bound of this harness: the row count on the sizes line (line 1, or line 2 after a comment) is at most 3 -- the reader fills ptr[0..n] in a loop; negative counts are NOT excluded
+    st.pc += [z3.BitVec('tok_1_0', 64) <= 3, z3.BitVec('tok_2_0', 64) <= 3]
+    rows_, cols_, ptr_, col_, val_, pl_, cl_, vl_, sy_ = t.out('rows', 8), t.out('cols', 8), t.out('ptr', 4 * cap), t.out('col', 4 * cap), t.out('val', 4 * cap), t.out('pl', 4), t.out('cl', 4), t.out('vl', 4), t.out('sym', 4); t.start()
+    def rd64(o): return z3.simplify(z3.Concat(*[o.bytes[k] for k in range(7, -1, -1)]))
+    def on_done(s2):
+        if s2.retval is None: t.findings.append(irsx.Violation("escaped-exception", "an exception left the wrapper", s2.model)); return
+        r = s2.retval; O = lambda x: s2.objs[x[0]]; rows = rd64(O(rows_)); cols = rd64(O(cols_)); pl = rd32(O(pl_), 0); cl = rd32(O(cl_), 0); vl = rd32(O(vl_), 0); P = [rd32(O(ptr_), i) for i in range(cap)]; C = [rd32(O(col_), i) for i in range(cap)]
+        conds = [rows >= 0, z3.SignExt(32, pl) == rows + 1, P[0] == 0, vl == cl, cl == sel(P, pl - 1, cap)]
+        for i in range(cap - 1): conds.append(z3.Implies(bvv(i + 1, 32) < pl, P[i] <= P[i + 1]))
+        for j in range(cap): conds.append(z3.Implies(bvv(j, 32) < cl, z3.And(C[j] >= 0, z3.SignExt(32, C[j]) < cols)))        # column indices inside the matrix
+        t.post(s2, z3.And(z3.Or(r == 0, r == 1), z3.Implies(r == 0, z3.And(*conds))), lambda m: "mm_reader returned normally with a structurally invalid matrix: rc=%s rows=%s cols=%s ptr_len=%s col_len=%s" % (m.eval(r), m.eval(rows), m.eval(cols), m.eval(pl), m.eval(cl)))
+    t.findings = t.eng.run(st, '@k_mm_read_sparse', [rb, re_, rows_[1], cols_[1], ptr_[1], bvv(cap, 32), col_[1], val_[1], bvv(cap, 32), pl_[1], cl_[1], vl_[1], sy_[1]], on_done, budget) + t.findings
+    return t
+
+def diff_mm(ll, iters, seed):
+    """concrete run of cwrap/d_mm.c's script through the executor"""
+    eng = irsx.Engine(ll, timeout_ms=10000); st = irsx.State(); eng.init_globals(st); ok, st.model = eng.check(st, []); box = [st]
+    S = [seed & (2**64 - 1)]
+    def rnd(n): S[0] = (S[0] * 6364136223846793005 + 1442695040888963407) & (2**64 - 1); return (S[0] >> 33) % n
+    def seti(name, idx, val, width):
+        o = gobj(eng, box[0], name); nb = width // 8
+        for b in range(nb): o.bytes[idx * nb + b] = bvv((val >> (8 * b)) & 255, 8)
+    def alloc(nbytes): o, p = eng.new_obj(box[0], "drv", nbytes, 'heap', init=[bvv(0xf9 if k % 4 == 0 else 0xff, 8) for k in range(nbytes)]); return o.id, p
+    def geti(oid, k, bits=32):
+        o = box[0].objs[oid]; nb = bits // 8; v = 0
+        for b in range(nb): v |= z3.simplify(o.bytes[k * nb + b]).as_long() << (8 * b)
+        return v - (1 << bits) if v >> (bits - 1) else v
+    lines = []
+    for it in range(iters):
+        n = rnd(4); m = 1 + rnd(3); nnz = rnd(4); sym = rnd(3) == 0; cm = rnd(4) == 0
+        com = [0] * VT_LINES; ntok = [0] * VT_LINES; tok = [[0] * VT_TOKS for _ in range(VT_LINES)]; word = [[9] * VT_TOKS for _ in range(VT_LINES)]
+        ntok[0] = 5; word[0][0:5] = [0, 1, 2, 6, 8 if sym else 7]
+        if rnd(12) == 0: word[0][rnd(5)] = 9
+        if rnd(15) == 0: ntok[0] = rnd(5)
+        l = 1
+        if cm: com[l] = 1; l += 1
+        if sym: m = n
+        ntok[l] = 3; tok[l][0:3] = [n, m, nnz]
+        if rnd(10) == 0: tok[l][0] = -1 - rnd(2)
+        if rnd(12) == 0: ntok[l] = rnd(3)
+        l += 1
+        e = 0
+        while e < nnz and l < VT_LINES:
+            ntok[l] = 3; tok[l][0] = 1 + rnd(n if n else 1); tok[l][1] = 1 + rnd(m if m else 1); tok[l][2] = 100 * it + e
+            if rnd(8) == 0: k_ = rnd(2); tok[l][k_] = rnd(7) - 1
+            if rnd(14) == 0: ntok[l] = rnd(3)
+            e += 1; l += 1
+        nl = l
+        if rnd(6) == 0: nl = rnd(l + 1)
+        seti('@vt_nlines', 0, nl, 32)
+        for L in range(VT_LINES):
+            seti('@vt_comment', L, com[L], 32); seti('@vt_ntok', L, ntok[L], 32)
+            for k in range(VT_TOKS): seti('@vt_tok', L * VT_TOKS + k, tok[L][k] & (2**64 - 1), 64); seti('@vt_word', L * VT_TOKS + k, word[L][k], 32)
+        for t in range(2):
+            rb = re_ = -1
+            if t == 1: rb = rnd(n + 2) - 1; re_ = rnd(n + 2) - 1
+            R_, C_, P_, CO, VA, PL, CL, VL, SY = alloc(8), alloc(8), alloc(96), alloc(96), alloc(96), alloc(4), alloc(4), alloc(4), alloc(4)
+            res = []; f = eng.run(box[0], '@k_mm_read_sparse', [bvv(rb, 64), bvv(re_, 64), R_[1], C_[1], P_[1], bvv(24, 32), CO[1], VA[1], bvv(24, 32), PL[1], CL[1], VL[1], SY[1]], lambda s2: res.append(s2))
+            if f or len(res) != 1: raise RuntimeError("concrete run did not complete on one path: %s %s" % ([x.kind + ' ' + x.detail for x in f], eng.stats['unsupported'][-2:]))
+            box[0] = res[0]; box[0].done = False; r = res[0].retval.as_long()
+            ln = "M it %d lines %d rows [%d,%d) -> %d" % (it, nl, rb, re_, r)
+            if r == 0: ln += " %d x %d sym %d ptr" % (geti(R_[0], 0, 64), geti(C_[0], 0, 64), geti(SY[0], 0)) + "".join(" %d" % geti(P_[0], i) for i in range(geti(PL[0], 0))) + " entries" + "".join(" (%d,%d)" % (geti(CO[0], j), geti(VA[0], j)) for j in range(geti(CL[0], 0)))
+            lines.append(ln)
+            for oid in [k for k, o in box[0].objs.items() if o.name == 'drv' or (o.kind in ('heap', 'stack') and not o.alive)]: del box[0].objs[oid]
+    return lines
+
 if __name__ == '__main__':
     ap = argparse.ArgumentParser(); ap.add_argument('--ll', required=True); ap.add_argument('--harness'); ap.add_argument('--fcap', type=int, default=24); ap.add_argument('--len', type=int, default=0); ap.add_argument('--n', type=int, default=1); ap.add_argument('--nnz', type=int, default=1); ap.add_argument('--m', type=int, default=1)
-    ap.add_argument('--budget', type=float, default=600); ap.add_argument('--timeout-ms', type=int, default=30000); ap.add_argument('--out'); ap.add_argument('--diff', nargs=2, type=int)
+    ap.add_argument('--budget', type=float, default=600); ap.add_argument('--timeout-ms', type=int, default=30000); ap.add_argument('--out'); ap.add_argument('--diff', nargs=2, type=int); ap.add_argument('--diff-mm', nargs=2, type=int); ap.add_argument('--range', nargs=2, type=int)
     a = ap.parse_args()
+    if a.diff_mm:
+        for ln in diff_mm(a.ll, a.diff_mm[0], a.diff_mm[1]): print(ln)
+        sys.exit(0)
     if a.diff:
         for ln in diff(a.ll, a.diff[0], a.diff[1]): print(ln)
         sys.exit(0)
@@ -196,8 +300,12 @@ if __name__ == '__main__':
     if a.harness == 'read_crs_robust': t = h_read_crs_robust(a.ll, a.fcap, a.len, a.budget, a.timeout_ms); params = dict(fcap=a.fcap, len=a.len)
     elif a.harness == 'read_dense_robust': t = h_read_dense_robust(a.ll, a.fcap, a.len, a.budget, a.timeout_ms); params = dict(fcap=a.fcap, len=a.len)
     elif a.harness == 'crs_roundtrip': t = h_crs_roundtrip(a.ll, a.n, a.nnz, a.budget, a.timeout_ms); params = dict(n=a.n, nnz=a.nnz)
+    elif a.harness == 'crs_roundtrip8': t = h_crs_roundtrip(a.ll, a.n, a.nnz, a.budget, a.timeout_ms, vbytes=8); params = dict(n=a.n, nnz=a.nnz, payload_bytes=8)
     elif a.harness == 'dense_roundtrip': t = h_dense_roundtrip(a.ll, a.n, a.m, a.budget, a.timeout_ms); params = dict(n=a.n, m=a.m)
+    elif a.harness == 'mm_sparse_robust': t = h_mm_sparse_robust(a.ll, a.n, a.budget, a.timeout_ms, body=(a.m == 1), rng=(tuple(a.range) if a.range else None)); params = dict(nlines=a.n, banner=('valid' if a.m == 1 else 'any'), row_range=(a.range or 'symbolic in [-1,4]^2'))
     else: sys.exit("unknown harness")
     res = t.result(a.harness, params, time.time() - t0)
     if a.out: json.dump(res, open(a.out, 'w'), indent=1)
     print(json.dumps(dict((k, v) for k, v in res.items() if k != 'findings'))); [print("FINDING", json.dumps(f)) for f in res['findings'][:3]]
+
+
